@@ -4,6 +4,7 @@ CONSTANTS
   MaxDepth = 1
   StmtDepth = 0
   Effects = FALSE
+  Focus = "all"
   Quirks = FALSE
   EnvCap = 16
   RetTypes <- MC_RetQuick
